@@ -3,7 +3,8 @@
 Space: every DFS-ordered kinematic tree with <=N bodies x every joint-kind assignment x 3 states
 (incl. unnormalised quaternions, moved mocap), each body carrying a geom, site, camera and light
 (tracking modes cycle over bodies); plus tendon families (fixed tendons over every subset of <=2
-scalar joints, spatial tendons site-site / sphere wrap / cylinder wrap (+sidesite) / pulley).
+scalar joints, spatial tendons site-site / sphere wrap / cylinder wrap (+sidesite) / pulley), plus tendons that actively wrap a sphere or
+cylinder carried by the middle body of a 3-body arm (4 wrap kinds x 4 joint layouts x 27 poses each).
 Oracle: mj_kinematics + mj_comPos + mj_camlight + mj_tendon, class f32.
 """
 
@@ -61,7 +62,90 @@ def scenarios(tier, seed):
     for joints in itertools.product(("hinge", "slide"), ("hinge", "slide", "ball"), ("hinge", "hingeslide")):
       for kind in ("fixed1", "fixed2", "spatial", "sphere", "cylinder", "cylinder_side", "pulley"):
         out.append(dict(fam="tendon", parents=list(parents), joints=list(joints), variant=variant, tendon=kind))
+  # spatial tendons that really wrap around a geom carried by a MOVING body (arm of three bodies, wrap geom on the middle one)
+  for wrap in WRAPS:
+    for arm in ARMS:
+      out.append(dict(fam="wrapmove", wrap=wrap, arm=arm, variant=variant))
   return out
+
+
+WRAPS = ("sphere", "sphere_side", "cylinder", "cylinder_side")
+ARMS = ("hhh", "hbh", "shh", "free")  # joint of body 1 / 2 / 3: hinge, ball, slide; "free": floating base + two hinges
+WRAP_GRID = (-0.5, 0.0, 0.45)
+
+
+def _wrapmove_xml(scn):
+  v = scn["variant"]
+  r = (0.08, 0.07, 0.09, 0.075)[v]
+  side = '<site name="side" pos="0 0 0.3" size="0.01"/>' if scn["wrap"].endswith("_side") else ""
+  if scn["wrap"].startswith("sphere"):
+    wg = f'<geom name="wrapg" type="sphere" size="{r}" pos="0.02 0.01 0" contype="0" conaffinity="0"/>'
+  else:
+    wg = f'<geom name="wrapg" type="cylinder" size="{r} 0.3" pos="0.02 0 0" quat="0.7071068 0.7071068 0 0" contype="0" conaffinity="0"/>'
+  j = {
+    "hhh": ('<joint name="j1" type="hinge" axis="0 1 0"/>', '<joint name="j2" type="hinge" axis="1 0 0"/>', '<joint name="j3" type="hinge" axis="0 1 0"/>'),
+    "hbh": ('<joint name="j1" type="hinge" axis="0 1 0"/>', '<joint name="j2" type="ball"/>', '<joint name="j3" type="hinge" axis="0 1 0"/>'),
+    "shh": ('<joint name="j1" type="slide" axis="0 0.6 0.8"/>', '<joint name="j2" type="hinge" axis="0.6 0 0.8"/>', '<joint name="j3" type="hinge" axis="0 1 0"/>'),
+    "free": ('<freejoint name="j1"/>', '<joint name="j2" type="hinge" axis="1 0 0"/>', '<joint name="j3" type="hinge" axis="0 1 0"/>'),
+  }[scn["arm"]]
+  sidesite = ' sidesite="side"' if side else ""
+  return f"""<mujoco><worldbody>
+  <body name="b1" pos="0 0 1">{j[0]}<geom size="0.03" contype="0" conaffinity="0"/><site name="sA" pos="0.05 0 0.05" size="0.01"/>
+    <body name="b2" pos="0.3 0 0">{j[1]}<geom size="0.03" pos="0 0.2 0" contype="0" conaffinity="0"/>{wg}{side}
+      <body name="b3" pos="0.3 0 0">{j[2]}<geom size="0.03" contype="0" conaffinity="0"/><site name="sB" pos="0.1 0 0.03" size="0.01"/></body></body></body>
+  </worldbody><tendon><spatial name="tw"><site site="sA"/><geom geom="wrapg"{sidesite}/><site site="sB"/></spatial></tendon></mujoco>"""
+
+
+def _wrapmove(scn):
+  import mujoco
+  import mujoco_warp as mjw
+
+  mjm = util.load(_wrapmove_xml(scn))
+  m = mjw.put_model(mjm)
+  d = mjw.make_data(mjm, nworld=2)
+  c = util.Cmp()
+  states = []
+  for a in itertools.product(WRAP_GRID, repeat=3):
+    q = np.array(mjm.qpos0)
+    if scn["arm"] == "hbh":
+      q[0], q[5] = a[0], a[2]
+      ax = np.array([0.6, 0.0, 0.8]) * np.sin(a[1] / 2)
+      q[1:5] = [np.cos(a[1] / 2), *ax]
+    elif scn["arm"] == "free":
+      q[0:3] += [0.1 * a[0], -0.05, 0.2 * a[0]]
+      q[3:7] = [np.cos(a[0] / 2), 0.0, np.sin(a[0] / 2), 0.0]
+      q[7], q[8] = a[1], a[2]
+    else:
+      q[:3] = [0.2 * a[0] if scn["arm"] == "shh" else a[0], a[1], a[2]]
+    states.append(q)
+  wrapped = 0
+  for k, q in enumerate(states):
+    mjd = util.mj_data(mjm, qpos=q)
+    mujoco.mj_kinematics(mjm, mjd)
+    mujoco.mj_comPos(mjm, mjd)
+    mujoco.mj_tendon(mjm, mjd)
+    util.copy_state(mjd, d)
+    util.copy_state(util.mj_data(mjm, qpos=states[(k + 1) % len(states)]), d, world=1)
+    mjw.kinematics(m, d)
+    mjw.com_pos(m, d)
+    mjw.tendon(m, d)
+    active = bool(mjd.ten_wrapnum[0] == 4)  # site, two tangent points on the geom, site
+    wrapped += active
+    pre = f"state{k}:"
+    c.close(pre + "ten_length", d.ten_length.numpy()[0], mjd.ten_length, "f32", vkey="ten_length")
+    c.equal(pre + "ten_wrapnum", d.ten_wrapnum.numpy()[0], mjd.ten_wrapnum, vkey="ten_wrapnum")
+    n = int(mjd.ten_wrapnum[0])
+    c.close(pre + "wrap_xpos", d.wrap_xpos.numpy()[0].reshape(-1)[: 3 * n], np.asarray(mjd.wrap_xpos).reshape(-1)[: 3 * n], "f32", vkey="wrap_xpos")
+    Jm = np.zeros((1, mjm.nv))
+    a0, kk = mjm.ten_J_rowadr[0], mjm.ten_J_rownnz[0]
+    if np.asarray(mjd.ten_J).size != mjm.nv or mujoco.mj_isSparse(mjm):
+      Jm[0, mjm.ten_J_colind[a0 : a0 + kk]] = mjd.ten_J[a0 : a0 + kk]
+    else:
+      Jm[:] = np.array(mjd.ten_J).reshape(1, mjm.nv)
+    Jw = _ten_J_dense(m, d, 0)
+    if Jw is not None:
+      c.close(pre + "ten_J", Jw, Jm, "f32", vkey="ten_J")
+  return c.result(nontrivial=wrapped > 0, key=util.sha(scn), info=dict(states=len(states), wrapped=wrapped), counts=dict(extra_evaluations=len(states) - 1))
 
 
 def _tendon_sections(kind, joints):
@@ -130,6 +214,8 @@ def execute(scn):
   import mujoco
   import mujoco_warp as mjw
 
+  if scn["fam"] == "wrapmove":
+    return _wrapmove(scn)
   xml = build_xml(scn)
   mjm, err = util.try_load(xml)
   if mjm is None:
